@@ -228,9 +228,22 @@ HX == [h1 |-> Call("@map", <<A0, Cat(<<A0, Key(Kk)>>)>>),
        p3 |-> Call("@reduce", <<Call("@range", <<Lit(I(4))>>), Call("sumi", <<A0, A1>>)>>)]
 HNames == DOMAIN HX
 \* the frame program (ExprPool.tla) of each: which helpers take a pooled sub-context, nested how
-PoolProg == [h1 |-> <<"map">>, h2 |-> <<"filter">>, h3 |-> <<"reduce">>, h4 |-> <<"for">>, h5 |-> <<"for">>,
+\* ("map" stands for @map, @filter and @reduce: the same Get / init / eval / Return shape)
+PoolProg == [h1 |-> <<"map">>, h2 |-> <<"map">>, h3 |-> <<"map">>, h4 |-> <<"for">>, h5 |-> <<"for">>,
              h6 |-> <<"map", "map">>, h7 |-> <<"map", "for">>, h8 |-> <<"for", "map">>,
-             p1 |-> <<"map">>, p2 |-> <<"for">>, p3 |-> <<"reduce">>]
+             p1 |-> <<"map">>, p2 |-> <<"for">>, p3 |-> <<"map">>]
+\* PoolProg really is the nesting of sub-context-taking helpers of the expression (an array ARGUMENT is
+\* evaluated before the sub-context is taken, so a helper there is not nested)
+RECURSIVE Chains(_)
+Chains(x) ==
+  IF x.t \in {"lit", "arg", "key"} THEN {<<>>}
+  ELSE IF x.t = "cat" THEN UNION {Chains(x.a[i]) : i \in 1..Len(x.a)}
+  ELSE LET k == IF x.f \in {"@map", "@filter", "@reduce"} THEN <<"map">> ELSE IF x.f = "@for" THEN <<"for">> ELSE <<>> IN
+       {<<>>} \cup UNION {{(IF SubPos(x.f, i) THEN k ELSE <<>>) \o c : c \in Chains(x.a[i])} : i \in 1..Len(x.a)}
+                \cup {k}
+ASSUME \A h \in HNames : /\ PoolProg[h] \in Chains(HX[h])
+                         /\ \A c \in Chains(HX[h]) : Len(c) <= Len(PoolProg[h])
+                         /\ Len(PoolProg[h]) <= 2          \* ExprPool!MaxDepth
 HCtx == <<[m |-> <<Render(<<<<97, 43, 98>>, Sc>>)>>, ks |-> <<<<Kk, Sx>>, <<Kn, I(2)>>>>],
           [m |-> <<Render(<<Sbb, E, <<97, 43, 43>>>>)>>, ks |-> <<<<Kk, Sy>>, <<Kn, I(3)>>>>],
           [m |-> <<Render(<<Sa>>)>>, ks |-> <<<<Kk, E>>, <<Kn, I(1)>>>>]>>
